@@ -299,7 +299,10 @@ def check(run, cfg):
     reports, obligations = [], []
     for n in cfg['contracts']:
         run.program.function(n)        # load sources (and C translation units) before forking
-    reports, vac_obs = verify.generate_parallel(run.program, cfg['contracts'])
+    bind_errors = {}
+    reports, vac_obs = verify.generate_parallel(run.program, cfg['contracts'], bind_errors=bind_errors)
+    for fn_, err_ in bind_errors.items():
+        run.errors.append('%s not verified: %s' % (fn_, err_))
     for rep in reports:
         obligations += rep.obligations
         if rep.vacuous:
